@@ -131,6 +131,15 @@ func (e *gfP12) MulScalar(a *gfP12, b *gfP6, pool *bnPool) *gfP12 {
 }
 
 func (c *gfP12) Exp(a *gfP12, power *big.Int, pool *bnPool) *gfP12 {
+	if power.Sign() < 0 {
+		// a^(-k) = (a^k)^(-1)
+		t := newGFp12(pool)
+		t.Exp(a, new(big.Int).Neg(power), pool)
+		c.Invert(t, pool)
+		t.Put(pool)
+		return c
+	}
+
 	sum := newGFp12(pool)
 	sum.SetOne()
 	t := newGFp12(pool)
